@@ -278,8 +278,28 @@ Lemma vstr_plain x : plain x -> vstr so sc t1 t2 false x = x.
 Proof. intros H. rewrite <- (app_nil_r x) at 1. rewrite vstr_plain_keep by exact H. cbn. now rewrite app_nil_r. Qed.
 End Vstr.
 
+Lemma okc_pua c : okc c = true -> is_pua c = false.
+Proof.
+  intros H. apply okc_range in H. unfold is_pua. destruct H as [H|H].
+  - destruct (N.ltb_spec 57344 c); [lia|reflexivity].
+  - destruct (N.leb_spec c 63743); [lia|]. now rewrite andb_false_r.
+Qed.
+
+Lemma astr_go_keep x r : plain x -> astr_go false (x ++ r) = x ++ astr_go false r.
+Proof.
+  induction x as [|c x IH]; intros H; cbn [app astr_go]; [reflexivity|].
+  apply plain_cons in H as [Hc Hx].
+  rewrite (okc_neq c DEL_O Hc eq_refl), (okc_neq c DEL_C Hc eq_refl), (okc_pua c Hc). now rewrite IH.
+Qed.
+Lemma astr_go_skip x r : plain x -> astr_go true (x ++ r) = astr_go true r.
+Proof.
+  induction x as [|c x IH]; intros H; cbn [app astr_go]; [reflexivity|].
+  apply plain_cons in H as [Hc Hx].
+  rewrite (okc_neq c DEL_O Hc eq_refl), (okc_neq c DEL_C Hc eq_refl), (okc_pua c Hc). now rewrite IH.
+Qed.
+
 Lemma astr_plain x : plain x -> astr x = x.
-Proof. apply vstr_plain; reflexivity. Qed.
+Proof. intros H. unfold astr. rewrite <- (app_nil_r x) at 1. rewrite astr_go_keep by exact H. cbn. now rewrite app_nil_r. Qed.
 Lemma rstr_plain x : plain x -> rstr x = x.
 Proof. apply vstr_plain; reflexivity. Qed.
 
@@ -290,17 +310,17 @@ Proof.
   unfold enc. cbn [map concat]. fold (enc d). rewrite <- app_assoc.
   rewrite DMPBase.t2_proj, DMPBase.proj_cons, <- DMPBase.t2_proj. cbn [snd] in H.
   destruct o; unfold enc_seg; cbn [fst snd DMPBase.keep2 DMP.is_delete negb].
-  - (* DELETE *) cbn [app vstr]. change (N.eqb DEL_O DEL_O) with true. cbv iota.
-    rewrite <- app_assoc. rewrite vstr_plain_skip by (reflexivity || exact H).
-    cbn [app vstr]. change (N.eqb DEL_C DEL_O) with false. change (N.eqb DEL_C DEL_C) with true. cbv iota.
+  - (* DELETE *) cbn [app astr_go]. change (N.eqb DEL_O DEL_O) with true. cbv iota.
+    rewrite <- app_assoc. rewrite astr_go_skip by exact H.
+    cbn [app astr_go]. change (N.eqb DEL_C DEL_O) with false. change (N.eqb DEL_C DEL_C) with true. cbv iota.
     apply IH.
-  - (* INSERT *) cbn [app vstr]. change (N.eqb INS_O DEL_O) with false. change (N.eqb INS_O DEL_C) with false.
-    change (N.eqb INS_O INS_O) with true. cbn [orb]. cbv iota.
-    rewrite <- app_assoc. rewrite vstr_plain_keep by (reflexivity || exact H). rewrite <- app_assoc. f_equal.
-    cbn [app vstr]. change (N.eqb INS_C DEL_O) with false. change (N.eqb INS_C DEL_C) with false.
-    change (N.eqb INS_C INS_O) with false. change (N.eqb INS_C INS_C) with true. cbn [orb]. cbv iota.
+  - (* INSERT *) cbn [app astr_go]. change (N.eqb INS_O DEL_O) with false. change (N.eqb INS_O DEL_C) with false.
+    change (is_pua INS_O) with true. cbv iota.
+    rewrite <- app_assoc. rewrite astr_go_keep by exact H. rewrite <- app_assoc. f_equal.
+    cbn [app astr_go]. change (N.eqb INS_C DEL_O) with false. change (N.eqb INS_C DEL_C) with false.
+    change (is_pua INS_C) with true. cbv iota.
     apply IH.
-  - (* EQUAL *) rewrite vstr_plain_keep by (reflexivity || exact H). rewrite <- app_assoc. f_equal. apply IH.
+  - (* EQUAL *) rewrite astr_go_keep by exact H. rewrite <- app_assoc. f_equal. apply IH.
 Qed.
 
 Lemma rstr_enc_app d : Forall (fun sg : DMP.op * str => plain (snd sg)) d -> forall r,
